@@ -705,3 +705,16 @@ Qed.
 
 Lemma ox_quiescent : oquiescent (oconf_run (oconf_init ox_progs) ox_sched) = true.
 Proof. vm_compute. reflexivity. Qed.
+
+Theorem conc_fetch_matches_oci (U : N -> gkey) (B : N -> blob) (progs : list (list op)) (sched : list nat) d hash len :
+  (forall g, k_dig (U g) = g) -> Forall (wf_op U B) (concat progs) ->
+  snd (oci_step (oc_store (oconf_run (oconf_init progs) sched)) (Fetch d)) = OBytes hash len ->
+  hash = d_dig d.
+Proof.
+  intros HU Hwf. pose proof (oinv_run U HU B progs sched Hwf _ (oinv_init U B progs)) as Hinv.
+  destruct Hinv as [_ _ Hbl _ _ _ _ _ _ _].
+  assert (H : blobs_verified (o_blobs (oc_store (oconf_run (oconf_init progs) sched)))).
+  { rewrite Hbl. unfold seq_ostate. apply oci_run_verified. intros g c X. discriminate. }
+  simpl. destruct (get N.eqb (d_dig d) (o_blobs (oc_store (oconf_run (oconf_init progs) sched)))) as [c|] eqn:E; [|discriminate].
+  intro X. injection X as <- _. apply (H _ _ E).
+Qed.
